@@ -687,10 +687,30 @@ func (f *Frame) lookup(x *ssa.Lookup, at string, st *State) *Val {
 // Range/Next over maps: the iteration is modelled as an arbitrary sequence of
 // present keys; facts about it come only from loop invariants.
 func (f *Frame) rangeInit(x *ssa.Range, at string, st *State) *Val {
-	if _, ok := x.X.Type().Underlying().(*types.Map); !ok {
+	m, ok := x.X.Type().Underlying().(*types.Map)
+	if !ok {
 		panic(unsupported{"range over string"})
 	}
+	// ghost state of the iteration: the set of keys already yielded
+	vc := f.vc
+	comp := f.rangeComp(x, m)
+	ks := vc.S.sortOf(m.Key())
+	st.heap[comp.Name] = "((as const (Array " + ks + " Bool)) false)"
 	return &Val{T: f.term(x.X)}
+}
+
+// rangeComp: pseudo heap component holding the "seen" set of a map iteration.
+func (f *Frame) rangeComp(x *ssa.Range, m *types.Map) *Component {
+	vc := f.vc
+	name := fmt.Sprintf("RangeSeen_%s_%s", f.prefix, x.Name())
+	if c, ok := vc.S.comps[name]; ok {
+		return c
+	}
+	ks := vc.S.sortOf(m.Key())
+	c := &Component{Name: name, Sort: "(Array " + ks + " Bool)", VSort: "Bool", T: m}
+	vc.S.comps[name] = c
+	vc.S.compOrder = append(vc.S.compOrder, name)
+	return c
 }
 
 func (f *Frame) rangeNext(x *ssa.Next, at string, st *State) *Val {
@@ -706,6 +726,16 @@ func (f *Frame) rangeNext(x *ssa.Next, at string, st *State) *Val {
 	ok := vc.declare(f.nm(x.Name()+"_ok"), "Bool")
 	k := vc.declare(f.nm(x.Name()+"_k"), vc.S.sortOf(m.Key()))
 	vc.assume(at, implies(ok, and(not(eq(ref, "0")), sel(sel(hd, ref), k))), "range yields present keys")
+	// each key is yielded at most once, and the iteration ends only when every
+	// key present has been yielded (the map is not modified by the loops here;
+	// if it is, the domain read at this point is the current one)
+	scomp := f.rangeComp(rng, m)
+	seen := vc.heapOf(st, scomp)
+	vc.assume(at, implies(ok, not(sel(seen, k))), "range yields each key once")
+	vc.ctr++
+	q := fmt.Sprintf("q!%d", vc.ctr)
+	vc.assume(at, implies(not(ok), or(eq(ref, "0"), fmt.Sprintf("(forall ((%[1]s %[2]s)) (! (=> (select (select %[3]s %[4]s) %[1]s) (select %[5]s %[1]s)) :pattern ((select (select %[3]s %[4]s) %[1]s))))", q, vc.S.sortOf(m.Key()), hd, ref, seen))), "range ends when every key has been yielded")
+	st.heap[scomp.Name] = vc.define(scomp.Name, scomp.Sort, ite(ok, sto(seen, k, "true"), seen))
 	vc.assume(at, vc.typeInv(k, m.Key(), st.alloc), "type invariant")
 	v := vc.define(f.nm(x.Name()+"_v"), vcomp.VSort, sel(sel(hv, ref), k))
 	vc.assume(at, vc.typeInv(v, m.Elem(), st.alloc), "type invariant")
